@@ -1333,8 +1333,8 @@ dense_matrix_submatrix(CDenseMatrix *s, const CDenseMatrix *mat,
                        unsigned long int r, unsigned long int c)
 {
     CWRAPPER_BEGIN
-    dense_matrix_rows_cols(s, numeric_cast<unsigned>(r2 - r1 + 1),
-                           numeric_cast<unsigned>(c2 - c1 + 1));
+    dense_matrix_rows_cols(s, numeric_cast<unsigned>((r2 - r1) / r + 1),
+                           numeric_cast<unsigned>((c2 - c1) / c + 1));
     mat->m.submatrix(s->m, numeric_cast<unsigned>(r1),
                      numeric_cast<unsigned>(c1), numeric_cast<unsigned>(r2),
                      numeric_cast<unsigned>(c2), numeric_cast<unsigned>(r),
